@@ -38,7 +38,7 @@ class WorldC16(World):
               'solver-raise-fired', 'early-stop-oracle-sensitive', 'natural-nonconvergence', 'span>=30', 'rank-deficient-network',
               'trace-species-present', 'loaded-from-thermdat', 'load-read-fault', 'high-pressure', 'low-pressure',
               'twelve-species', 'four-elements', 'optimality-judged', 'deep-trace-not-judged', 'solver-exit-mode-fired',
-              'thermdat-rewritten-in-place', 'corrupt-file-refused', 'solve-with-nan-thermo', 'above-a-species-fitted-range')
+              'thermdat-rewritten-in-place', 'corrupt-file-refused', 'solve-with-nan-thermo', 'above-a-species-fitted-range', 'warnings-as-errors')
     REAL = ('pmutt.equilibrium.Equilibrium (constructor, get_net_comp, from_thermdat)', 'scipy.optimize.minimize(SLSQP)',
             'pmutt.io.thermdat reader/writer', 'pmutt.empirical.nasa.Nasa')
     SIMULATED = ('solver outcome policy at the pmutt.equilibrium._equilibrium.minimize seam (pass, iteration cap, early stop, raise, give up with SLSQP exit mode 3-9 part-way)',
@@ -167,8 +167,8 @@ class WorldC16(World):
             rng.shuffle(order)
             return {'c': c, 'op': 'build', 'fault': fault,
                     'args': {'id': 0, 'species': species, 'feed': feed, 'order': order, 'via': sw['via'],
-                             'rewrite': sw['via'] == 'thermdat' and rng.random() < 0.5,
-                             'corrupt': ({'kind': rng.choice(['nan', 'byte']), 'sp': rng.randrange(len(species)),
+                             'rewrite': (rng.choice([True, 'longer']) if sw['via'] == 'thermdat' and rng.random() < 0.5 else False),
+                             'corrupt': ({'kind': rng.choice(['nan', 'byte', 'cut']), 'sp': rng.randrange(len(species)),
                                           'col': rng.randrange(8)}
                                          if sw['via'] == 'thermdat' and fault is None and rng.random() < 0.15 else None)}}
         ids = sorted(self.eq)
@@ -190,6 +190,8 @@ class WorldC16(World):
             pol = {'kind': kind}
             if kind == 'iter_cap':
                 pol['n'] = rng.choice([1, 2, 3, 5, 8])
+            if rng.random() < 0.3:
+                pol['strict'] = True
             if kind == 'fail_status':
                 pol['status'] = rng.choice([8, 8, 9, 4, 5, 6, 7, 3])
                 pol['how'] = rng.choice(['cap', 'null'])
@@ -218,6 +220,11 @@ class WorldC16(World):
                 # second) was loaded from this path a moment ago
                 self.ctx.probe('thermdat-rewritten-in-place')
                 old = [self._nasa(dict(d, h=d['h'] - 700.0 * (i + 1))) for i, d in enumerate(species)]
+                if a.get('rewrite') == 'longer':
+                    # ... and it was a longer file: two more species, the common ones listed last and in reverse
+                    extra = [self._nasa({'name': 'ZZ%d' % j_, 'comp': dict(species[0]['comp']), 'cp': 4.0, 'h': -1000.0, 's': 20.0})
+                             for j_ in range(2)]
+                    old = extra + old[::-1]
                 self.th.write_thermdat(old, filename=fs.path('net%d.dat' % a['id']))
                 self.eqm.Equilibrium.from_thermdat(fs.path('net%d.dat' % a['id']), network)
             self.th.write_thermdat(objs, filename=fs.path('net%d.dat' % a['id']))
@@ -249,6 +256,15 @@ class WorldC16(World):
         if not first:
             return
         i = first[c['sp'] % len(first)]
+        if c['kind'] == 'cut':
+            # the file ends in the middle of its last record (a copy in progress, a full disk on the other side)
+            last = max(i_ for i_, ln in enumerate(lines) if len(ln) >= 80 and ln[79:80] == b'4')
+            keep = 46 + c.get('col', 0) % 14          # somewhere inside the last coefficient field (columns 46-60)
+            lines = lines[:last] + [lines[last][:keep]]
+            self.ctx.faults['stored_file_cut_short'] += 1
+            with open(path, 'wb') as f:
+                f.write(b'\n'.join(lines))
+            return
         if c['kind'] == 'nan':
             lines[i + 1] = b'            NaN' + lines[i + 1][15:]          # a_high[0] of that species
             self.ctx.faults['stored_field_nan'] += 1
@@ -303,6 +319,20 @@ class WorldC16(World):
             used = self._fault_used
             if used and used.get('fired'):
                 raise Violation('fault-must-be-signalled', 'from_thermdat returned an object although %s fired' % used['kind'])
+            if corrupt and corrupt['kind'] in ('cut', 'byte'):
+                # the load went through although stored bytes had changed: then what was loaded must be what was written
+                for d in a['species']:
+                    obj = eq.model.get(d['name']) if isinstance(eq.model, dict) else None
+                    want = [d['cp'], d.get('a1', 0.0), 0.0, 0.0, 0.0, d['h'], d['s']]
+                    got_lo = list(getattr(obj, 'a_low', [])) if obj is not None else []
+                    got_hi = list(getattr(obj, 'a_high', [])) if obj is not None else []
+                    bad = obj is None or dict(obj.elements) != dict(d['comp']) or len(got_lo) != 7 or len(got_hi) != 7 or any(
+                        abs(float(g_) - w_) > 1e-8 * max(1.0, abs(w_)) for g_, w_ in zip(got_lo + got_hi, want + want))
+                    if bad:
+                        raise Violation('fault-must-be-signalled', 'the stored file had been damaged (%s) and from_thermdat loaded it '
+                                        'without a word: species %r came out as %r / %r / %r, written %r' % (
+                                            corrupt['kind'], d['name'], getattr(obj, 'elements', None), got_lo, got_hi, want))
+                ctx.probe('damaged-file-loaded-intact')
             self.eq[a['id']] = eq
             self.meta[a['id']] = {'species': a['species'], 'feed': a['feed'], 'order': list(a['order']), 'solves': 0,
                                   'failed_last': False, 'results': {}, 'via': a['via'],
@@ -355,6 +385,8 @@ class WorldC16(World):
             reg.clear()
         try:
             with warnings.catch_warnings(record=True) as wl:
+                if policy and policy.get('strict'):
+                    warnings.simplefilter('error')      # the caller runs with -W error: a warning is an exception
                 # no filter of our own: a signal is what reaches a caller running under the interpreter's default
                 # filters (workers run with -W default); the once-per-location registry was cleared above
                 try:
@@ -400,6 +432,8 @@ class WorldC16(World):
             m['failed_last'] = True
             return 'nan thermo signalled'
         told_failure = any(r == 'raised' or not bool(getattr(r, 'success', False)) for r in results)
+        if policy and policy.get('strict'):
+            ctx.probe('warnings-as-errors')
         if kind == 'raise':
             ctx.probe('solver-raise-fired')
         if kind == 'iter_cap' and told_failure:
@@ -410,6 +444,9 @@ class WorldC16(World):
             ctx.probe('natural-nonconvergence')
         signals = [w for w in ws if not any(nz in w[1] for nz in NOISE)]
         if st == 'raised':
+            if isinstance(val, Warning):
+                m['failed_last'] = True
+                return 'a warning, raised as an error at the caller\'s request'
             if not told_failure and not isinstance(val, (ValueError, RuntimeError, ArithmeticError)):
                 raise Violation('op-must-succeed', 'get_net_comp raised %s: %s although every solver call reported '
                                 'success' % (type(val).__name__, str(val)[:200]))
